@@ -12,6 +12,7 @@ per emit from the ``row = ...`` / ``col = ...`` definitions reaching it, so a
 loop variable that is used outside its loop shows up as an unresolved role.
 """
 import ast
+import os
 import re
 from fractions import Fraction
 
@@ -121,6 +122,20 @@ class Emit:
         self.env_row = None      # frame definitions reaching the emit
         self.frame = None
         self.kind = 'aug'        # aug (+=) / set (=)
+
+
+_frame_names = None
+
+
+def known_frame_name(name):
+    global _frame_names
+    if os.environ.get('VERIF_FRAME_ALL') == '1':
+        return True
+    if _frame_names is None:
+        import json
+        p = os.path.join(os.path.dirname(os.path.abspath(__file__)), 'frame_names.json')
+        _frame_names = set(json.load(open(p))) if os.path.exists(p) else None
+    return _frame_names is None or name in _frame_names
 
 
 class Walker:
@@ -254,6 +269,17 @@ class Walker:
         # and show up as unresolved roles)
 
     def do_if(self, st):
+        # canonical polarity: `if a != b: X else: Y` is walked as `if a == b: Y else: X` (same guard texts as the positive spelling)
+        t = st.test
+        pos = None
+        if isinstance(t, ast.UnaryOp) and isinstance(t.op, ast.Not):
+            pos = t.operand
+        elif isinstance(t, ast.Compare) and len(t.ops) == 1 and isinstance(t.ops[0], (ast.NotEq, ast.IsNot)):
+            pos = ast.Compare(left=t.left, ops=[ast.Eq() if isinstance(t.ops[0], ast.NotEq) else ast.Is()], comparators=t.comparators)
+        if pos is not None and st.orelse and not (len(st.body) == 1 and isinstance(st.body[0], ast.Continue)):
+            st = ast.If(test=pos, body=st.orelse, orelse=st.body)
+            ast.copy_location(st, t)
+            ast.fix_missing_locations(st)
         test = ast.unparse(st.test)
         # 'if cond: continue' guards the rest of the loop body
         if len(st.body) == 1 and isinstance(st.body[0], ast.Continue) and not st.orelse:
@@ -500,7 +526,8 @@ class Walker:
             self.env.pop(name, None)
             self.frame.pop('$' + name, None)
             return
-        if len(v.t) <= 1 or not self._is_plain(v):
+        if len(v.t) <= 1 or not self._is_plain(v) or not known_frame_name(name):
+            # (a loop invariant hoisted under a name that is not one of the frame scalars of the confirmed tree is just its value)
             self.env[name] = v
             self.frame.pop('$' + name, None)
         else:
